@@ -217,8 +217,8 @@ def run(tier):
     for cid, src in tri:
         f = timpl.get(cid, ["missing"])
         if f[0].startswith("ok"):
-            ir = "".join(f[1:]).replace("\\n", "\n")
-            if not re.search(r"define [^\n]*@only_in_b\(", ir) or len(re.findall(r"define [^\n]*@helper\(", ir)) < 2:
+            ir = f[1].replace("\\n", "\n")          # the LINKED program (the modules' own IR follows in the other fields)
+            if not re.search(r"define [^\n]*@only_in_b\(", ir) or len(re.findall(r"define [^\n]*@helper", ir)) < 2:
                 bad += 1; ck.violation("function-missing:link-error-ignored", "two modules define `helper`; the compilation succeeds and the program lacks a definition the source has", src + "\n" + ir[-3000:])
     dimpl = C.run_harness("ir", dups, ck.work + "/dups", timeout=600)
     for cid, src in dups:
